@@ -136,7 +136,7 @@ func doRegex(spec string) (out string) {
 
 var reAtoms = []string{"a", "b", "ab", ".", "[ab]", "[^a]", "\\d", "\\w+", "(a)", "(b|c)", "(a+)(b*)", "a*", "b?", "^", "$", "x{2}", "(?i)A", "[0-9]+", "(", ")", "[", "*", "a**", "\\", "(?P<n>a)", "a|", "\\s"}
 var reSubjects = []string{"", "a", "ab", "abc", "aab", "bbb", "xx", "a1b22", "A", "hello world", "aaa", "cab", "b a"}
-var reTemplates = []string{"", "x", "$1", "[$1]", "$2$1", "$0", "$3", "$1x", "a$1b$2c", "$10", "$11", "$0x", "[$0y]", "$5x", "$1y", "$2_", "$12", "$21", "$35", "$9z", "$1$1", "$2x$1", "$01", "$00", "$007"}
+var reTemplates = []string{"", "x", "$1", "[$1]", "$2$1", "$0", "$3", "$1x", "a$1b$2c", "$10", "$11", "$0x", "[$0y]", "$5x", "$1y", "$2_", "$12", "$21", "$35", "$9z", "$1$1", "$2x$1", "$01", "$00", "$007", "$05", "$050", "$09x", "$10", "$100"}
 
 func genC16(o *cw) {
 	// sequential cache histories: capacities 0..5, key alphabets, lengths
@@ -212,17 +212,21 @@ func xpathReplace(re *regexp.Regexp, s, tmpl string) string {
 				continue
 			}
 			j := i + 1
+			// XPath F&O 7.6.3: N = the digits; while N exceeds the number of groups and has
+			// more than one digit, the last digit is literal text; a remaining N above the
+			// number of groups is an empty reference
+			limit := re.NumSubexp()
+			if limit < 9 {
+				limit = 9
+			}
 			best, bestVal, val := 0, 0, 0
-			for k := j; k < len(tmpl) && tmpl[k] >= '0' && tmpl[k] <= '9' && k-j < 9; k++ {
+			for k := j; k < len(tmpl) && tmpl[k] >= '0' && tmpl[k] <= '9' && val <= limit; k++ {
 				val = val*10 + int(tmpl[k]-'0')
-				if val <= re.NumSubexp() {
+				if val <= limit {
 					best, bestVal = k-j+1, val
 				}
 			}
-			if best == 0 {
-				best, bestVal = 1, -1
-			}
-			if bestVal >= 0 && m[2*bestVal] >= 0 {
+			if bestVal <= re.NumSubexp() && m[2*bestVal] >= 0 {
 				b.WriteString(s[m[2*bestVal]:m[2*bestVal+1]])
 			}
 			i = j + best - 1
